@@ -483,7 +483,10 @@ sqrt_mpq(mpq_class& to, const mpq_class& from, const Rounding_Dir dir) {
   const mpz_class& from_b = gt1 ? from.get_den() : from.get_num();
   mpz_class& to_a = gt1 ? to.get_num() : to.get_den();
   mpz_class& to_b = gt1 ? to.get_den() : to.get_num();
-  Rounding_Dir rdir = gt1 ? dir : inverse(dir);
+  // When from < 1 the square root of the reciprocal is computed.
+  const bool rounding_requested = !round_not_requested(dir);
+  const Rounding_Dir rdir
+    = rounding_requested ? (gt1 ? dir : inverse(dir)) : ROUND_IGNORE;
   mul_2exp<To_Policy, From_Policy>(to_a, from_a,
                                    2*irrational_precision, ROUND_IGNORE);
   Result r_div
@@ -493,7 +496,23 @@ sqrt_mpq(mpq_class& to, const mpq_class& from, const Rounding_Dir dir) {
   mul_2exp<To_Policy, To_Policy>(to_b, to_b,
                                  irrational_precision, ROUND_IGNORE);
   to.canonicalize();
-  return (r_div != V_EQ) ? r_div : r_sqrt;
+  if (!rounding_requested) {
+    return V_LGE;
+  }
+  const Result r = (r_div != V_EQ) ? r_div : r_sqrt;
+  if (gt1) {
+    return r;
+  }
+  // The relation holds for the reciprocal: swap `less' and `greater'.
+  const unsigned r_bits = static_cast<unsigned>(r);
+  unsigned inv_bits = r_bits & ~static_cast<unsigned>(VR_NE);
+  if ((r_bits & static_cast<unsigned>(VR_LT)) != 0) {
+    inv_bits |= static_cast<unsigned>(VR_GT);
+  }
+  if ((r_bits & static_cast<unsigned>(VR_GT)) != 0) {
+    inv_bits |= static_cast<unsigned>(VR_LT);
+  }
+  return static_cast<Result>(inv_bits);
 }
 
 PPL_SPECIALIZE_SQRT(sqrt_mpq, mpq_class, mpq_class)
